@@ -372,6 +372,10 @@ func (ce *CEnv) evalCall(e *CExpr) Val {
 		if st == nil {
 			st = ce.ex.cur
 		}
+		if r.Nil {
+			// dereference of nil inside a specification: an arbitrary value (specs guard such uses with implications)
+			return &ObjV{K: &Kind{K: "obj", Name: "nilderef"}, ID: Fresh("nilderef", SInt), Ghost: map[string]Val{}}
+		}
 		return ce.ex.load(st, r, nil)
 	case "isnil":
 		v := ce.eval(args[0])
